@@ -59,15 +59,16 @@ def run(tier, seed, verdict):
     r2.build()
     r2.execute({"C18": verdict}, None)
     st = res.stats
-    if not st.get("histories") or not st.get("objects_stored_on_heap") or not st.get("objects_stored_inline") \
-            or not st.get("exceptions_propagated") or not st.get("anysched_items"):
-        raise core.HarnessFailure("erase harness observed too little: %s" % st)
+    core.require_observed(verdict, [k for k in ("histories", "objects_stored_on_heap", "objects_stored_inline",
+                                                  "exceptions_propagated", "anysched_items", "throwing_move_assignments")
+                                    if not st.get(k)], "erase harness")
     c1, c2 = r1.coverage(), r2.coverage()
     cov = {
         "evaluations": st.get("histories", 0) + c1["evaluations"] + c2["evaluations"],
         "distinct_nontrivial": st.get("distinct_histories", 0) + c1["distinct_nontrivial"] + c2["distinct_nontrivial"],
         "rule": "three parts. (1) histories: seeded random sequences of 3-12 operations {in-place construct of a small / "
-                "200-byte / throwing-move / 64-byte-aligned tracked object, move-construct, move-assign, self-move-assign, "
+                "200-byte / throwing-move / 64-byte-aligned tracked object, move-construct, move-assign, self-move-assign, move-assign "
+                "whose wrapped move constructor throws (destination destroyed exactly once and left empty-but-valid), "
                 "assign-from-value, CPO call, destroy} over 4 wrapper slots, for any_object_t, basic_any_object with inline "
                 "sizes 8/256/32 (custom counting allocator; noexcept-move required or not), any_unique_t with the counting "
                 "allocator, any_ref_t; checked against a slot model (which lineage each wrapper must report, heap hand-over vs "
